@@ -294,6 +294,7 @@ func classifyDartLinks(ir *dartIR) string {
 		byName[f.Name] = f
 	}
 	onlyAnon, any := true, false
+	onlyDup, dupNamed := true, false
 	undefinedUnion := false
 	for _, f := range ir.Files {
 		count := map[string]int{}
@@ -314,6 +315,13 @@ func classifyDartLinks(ir *dartIR) string {
 			if !(anon && count[u] > 1) {
 				onlyAnon = false
 			}
+			if count[u] > 1 {
+				if !anon {
+					dupNamed = true // a class, enum or helper of a named type defined in two visible files
+				}
+			} else {
+				onlyDup = false
+			}
 			if count[u] == 0 {
 				for _, c := range ir.Classes {
 					for _, im := range c.Implements {
@@ -330,6 +338,8 @@ func classifyDartLinks(ir *dartIR) string {
 		return ""
 	case onlyAnon:
 		return "dart-anonymous-helper-in-two-files"
+	case onlyDup && dupNamed:
+		return "dart-same-class-name-in-two-packages"
 	case undefinedUnion:
 		return "dart-implements-union-not-emitted"
 	}
